@@ -120,12 +120,14 @@ impl<T: std::future::Future> std::future::Future for InSpan<T> {
     fn poll(self: std::pin::Pin<&mut Self>, cx: &mut std::task::Context<'_>) -> Poll<Self::Output> {
         let this = self.project();
 
-        let _guard = this.span.as_ref().map(|s| s.set_local_parent());
+        let guard = this.span.as_ref().map(|s| s.set_local_parent());
         let res = this.inner.poll(cx);
 
         match res {
             r @ Poll::Pending => r,
             other => {
+                // Submit what was recorded during this poll before the span itself finishes.
+                drop(guard);
                 this.span.take();
                 other
             }
